@@ -1,4 +1,5 @@
 import Srctools.Gen.VmfKeys
+import Srctools.Proofs.C06
 /-!
 # C06 — VMF export/parse round trip is a fixed point and loses no map content
 
@@ -23,13 +24,13 @@ def parentRead : List (String × String) := [
   ("Camera", "camera"),      -- VMF.parse: every child of 'cameras' that is not 'activecamera'
   ("Cordon", "cordon")]      -- VMF.parse: find_all('cordon')
 
-def lower (s : String) : String := s.map Char.toLower
+def lowerS (s : String) : String := s.map Char.toLower
 
 def keyOK (c : Gen.VmfKeys.Cls) (k : String) : Bool :=
-  c.readKeys.any (fun r => lower r == lower k) || parentRead.contains (c.name, k)
+  c.readKeys.any (fun r => lowerS r == lowerS k) || parentRead.contains (c.name, k)
 
 def prefixOK (c : Gen.VmfKeys.Cls) (k : String) : Bool :=
-  c.readPrefixes.any (fun r => lower r == lower k)
+  c.readPrefixes.any (fun r => lowerS r == lowerS k)
 
 /-- The (class, key) pairs written by an `export` that no parser reads. -/
 def writeOnly : List (String × String) :=
@@ -48,5 +49,134 @@ theorem C06_keys_table_shape :
       ["VMF", "Strata2DViewport", "Strata3DViewport", "Entity", "Solid", "Side", "VisGroup",
        "EntityGroup", "Camera", "Cordon"]
     ∧ Gen.VmfKeys.table.all (fun c => !c.writtenKeys.isEmpty) = true := by decide +kernel
+
+
+/-! ## Tree-level round trip
+
+`exportTree o m` is the keyvalues tree of `VMF.export()` (model of the writer), `parseTree true`
+is `VMF.parse(..., preserve_ids=True)` (model of the reader, id managers included), `project o m`
+is what the options are documented to drop plus order normalisation (keys and id sets are written
+sorted, fixups by index).  All three are compared with the implementation on every run.
+
+`MapOK1` (Proofs/C06.lean) is the domain: numeric tokens are numeric and free of blanks and
+brackets, keys are not `id` / `replace…` and differ ignoring case, fixup indexes are 0..99 and
+distinct, output fields do not contain their own separator, worldspawn is not hidden, the format
+version is 100 — and, in this **v1 statement**, faces carry no displacement and no Strata point
+data (those are covered by the correspondence and the search only). `IdsOK`: no id is the
+"allocate one" marker -1, group ids are distinct. -/
+
+/-- **Round trip (v1 domain).** Re-parsing the exported tree with `preserve_ids=True` gives
+exactly the projected map: nothing else is lost or changed. -/
+theorem C06_tree_roundtrip_partial (o : ExportOpts) (m : VMap) (h : MapOK1 m) (hid : IdsOK m) :
+    parseTree true (exportTree o m) = .ok (project o m) := by
+  unfold parseTree
+  rw [parseRaw_export o m h]
+  simp only [Except.map]
+  rw [assignIds_preserve _ (idsOK_rawRT o m hid), fix_rawRT_eq_project o m h]
+
+/-- Sub-structure forms of the same statement (each reader undoes its writer). -/
+theorem C06_entity_partial (mb w hidden : Bool) (groups : List Group) (e : Ent) (h : EntOK1 e)
+    (hg : ∀ g ∈ groups, GroupOK g = true) :
+    parseEnt w hidden (entBlock mb w groups e) = .ok (entRT w hidden e, if w then groups else []) :=
+  parseEnt_block mb w hidden groups e h hg
+
+theorem C06_output_partial (o : Out) (h : OutOK o = true) : parseOut (exportOut o) = .ok (projOut o) :=
+  parseOut_export o h
+
+theorem C06_solid_partial (mb ig hidden : Bool) (s : Solid) (h : SolidOK1 s = true) :
+    parseSolid hidden (solidBlock mb ig s) = .ok (solidRT ig hidden s) :=
+  parseSolid_block mb ig hidden s h
+
+theorem C06_side_partial (mb : Bool) (s : Side) (h : SideOK1 s = true) : parseSide (exportSide mb s) = .ok s :=
+  parseSide_export1 mb s h
+
+theorem C06_visgroup (v : Vis) (h : VisOK v = true) : parseVis (exportVis v) = .ok v :=
+  parseVis_export v h
+
+theorem C06_group (g : Group) (h : GroupOK g = true) : parseGroup (exportGroup g) = .ok g :=
+  parseGroup_export g h
+
+theorem C06_camera (c : Cam) (h : CamOK c = true) : parseCam (exportCam c) = .ok c := parseCam_export c h
+
+theorem C06_cordon (c : Cordon) (h : CordonOK c = true) : parseCordon (exportCordon c) = .ok c :=
+  parseCordon_export c h
+
+theorem C06_viewport (title : String) (is0 : Bool) (d : Nat) (v : View) (h : ViewOK v = true) :
+    parseViewKids is0 d (exportView title v).kids = .ok v :=
+  parseViewKids_export title is0 d v h
+
+/-- Integer fields: `int(str(i)) = i`. -/
+theorem C06_int_roundtrip (i : Int) : parseInt? (showInt i) = some i := parseInt_showInt i
+
+/-! ### Non-vacuity: a map with hidden objects, a brush entity, outputs of both separator kinds,
+an `instance:` output, fixups, nested visgroups, a group, Strata viewports with zeros, a camera and
+a cordon satisfies the hypotheses. -/
+
+def exV (a b c : String) : V3 := ⟨a.toList, b.toList, c.toList⟩
+def exUV : UV := ⟨lit "1", lit "0", lit "0", lit "-12.5", lit "0.25"⟩
+
+def exSide : Side :=
+  { id := 7, p0 := exV "0" "0" "0", p1 := exV "64" "0" "0.5", p2 := exV "64" "-64" "1e-05",
+    mat := lit "a\"b\\c", uaxis := exUV, vaxis := exUV, rot := lit "90", lightmap := 16, smooth := 0,
+    points := none, disp := none }
+
+def exSolid : Solid :=
+  { id := 3, sides := [exSide, { exSide with id := 8 }], visIds := [15, 7], hidden := true, group := some 4,
+    visShown := false, visAuto := true, cordon := true, color := exV "0" "255" "100" }
+
+def exOut : Out :=
+  { output := lit "OnTrigger", instOut := some (lit "relay"), target := lit "door \"1\"", input := lit "Open",
+    instIn := none, params := lit "a b", delay := lit "0.5", times := -1, comma := true }
+
+def exEnt : Ent :=
+  { id := 5, keys := [(lit "targetname", lit "x\ny"), (lit "Classname", lit "func_door")],
+    fixup := [⟨lit "var", lit "some value", 2⟩, ⟨lit "other", [], 1⟩], outputs := [exOut, { exOut with comma := false, instOut := none }],
+    solids := [exSolid], hidden := true, groups := [4], visIds := [15, 7], visShown := true, visAuto := false,
+    color := exV "220" "30" "220", logicalPos := lit "[0 500]", comments := lit "hi" }
+
+def exMap : VMap :=
+  { hammerVer := 400, hammerBuild := 5304, mapVer := 3, formatVer := 100, prefab := false,
+    vis := [.mk (lit "outer") 7 (exV "1" "2" "3") [.mk (lit "in\"ner") 15 (exV "4" "5" "6") []]],
+    snap := true, grid := false, logic := false, spacing := 64, grid3d := true, instVis := some 2,
+    views := some [.v3 (exV "1" "2" "3") (exV "0" "90" "0"), .v2 0 (lit "0") (lit "5") (lit "1"),
+                   .v2 1 (lit "0") (lit "0") (lit "0.25"), .v2 2 (lit "3") (lit "0") (lit "1")],
+    spawn := { exEnt with id := 1, hidden := false, keys := [(lit "skyname", lit "sky")], solids := [{ exSolid with hidden := false }] },
+    groups := [⟨4, true, false, exV "9" "9" "9"⟩], ents := [exEnt, { exEnt with id := 6, hidden := false, solids := [] }],
+    activeCam := 1, cams := [⟨exV "1" "2" "3", exV "4" "5" "6"⟩], cordonOn := true,
+    cordons := [⟨lit "cor\"don", true, exV "0" "0" "0", exV "8" "8" "8"⟩], quickhide := 2 }
+
+theorem exSolid_ok : SolidOK1 exSolid = true := by decide
+theorem exEnt_ok (e : Ent) (h : e = exEnt ∨ e = { exEnt with id := 6, hidden := false, solids := [] }) : EntOK1 e := by
+  rcases h with rfl | rfl <;>
+  exact { idNonneg := by decide, keyNames := by decide, keysDistinct := by unfold KeysDistinct; decide,
+          fixes := by decide, fixIds := by decide, fixVars := by unfold VarsDistinct; decide,
+          outs := by decide, solids := by decide, color := by decide }
+
+theorem exMap_ok : MapOK1 exMap :=
+  { format := rfl, instVis := by simp [exMap, InstVisOK],
+    views := ⟨_, _, _, _, rfl, by decide, by decide, by decide, by decide⟩,
+    vis := by decide,
+    spawn := { idNonneg := by decide, keyNames := by decide, keysDistinct := by unfold KeysDistinct; decide,
+               fixes := by decide, fixIds := by decide, fixVars := by unfold VarsDistinct; decide,
+               outs := by decide, solids := by decide, color := by decide },
+    spawnVisible := rfl, groups := by decide,
+    ents := by
+      intro e he
+      apply exEnt_ok
+      simpa [exMap] using he,
+    cams := by decide, cordons := by decide }
+
+
+theorem exMap_ids : IdsOK exMap :=
+  { vis := by decide, groups := by decide, groupsDistinct := by decide,
+    spawn := ⟨by decide, by decide⟩,
+    ents := by
+      intro e he
+      have : e = exEnt ∨ e = { exEnt with id := 6, hidden := false, solids := [] } := by simpa [exMap] using he
+      rcases this with rfl | rfl <;> exact ⟨by decide, by decide⟩ }
+
+example : parseTree true (exportTree { minimal := false, multiblend := true, incVersion := true } exMap)
+    = .ok (project { minimal := false, multiblend := true, incVersion := true } exMap) :=
+  C06_tree_roundtrip_partial _ _ exMap_ok exMap_ids
 
 end C06
